@@ -2,8 +2,12 @@
 
 use crate::ev::Ctx;
 
+pub mod c01;
 pub mod c02;
 pub mod c03;
+pub mod c04;
+pub mod c05;
+pub mod c06;
 pub mod c08;
 pub mod cmp31;
 pub mod c09;
@@ -13,8 +17,12 @@ pub type Runner = fn(&mut Ctx);
 
 pub fn lookup(prop: &str) -> Option<Runner> {
     Some(match prop {
+        "C01" => c01::run,
         "C02" => c02::run,
         "C03" => c03::run,
+        "C04" => c04::run,
+        "C05" => c05::run,
+        "C06" => c06::run,
         "C08" => c08::run,
         "C09" => c09::run,
         "C10" => c10::run,
